@@ -782,6 +782,8 @@ class XlsxRowWriter(AbstractRowWriter):
         assert row_to_write is not None
 
         row_index = self.location.line
+        # The row is looked at more than once, so make sure it still is there in case it is a generator.
+        row_to_write = list(row_to_write)
         # Refuse the row before anything is written because xlsxwriter would silently drop cells outside of the sheet.
         if row_index >= _MAX_EXCEL_ROW_COUNT:
             raise errors.DataFormatError(
